@@ -96,6 +96,7 @@ struct Harness
     ESlot es[NE];
     RunCtx& rc;
     std::uint64_t payload_counter = 0;
+    bool scramble_domain = false;
     std::uint64_t new_in_lib = 0;
 
     static constexpr std::size_t SLOT_V = (sizeof(V) + 63) / 64 * 64;
@@ -149,7 +150,13 @@ struct Harness
     {
         ++payload_counter;
         const std::uint64_t h = mix64(seed * 1000003ull + payload_counter * 7919ull + param);
-        if (small_domain > 0) return h % static_cast<std::uint64_t>(small_domain);
+        if (small_domain > 0)
+        {
+            // small domains make ties occur; the "scrambled" variant (negative raw domain) spreads the few values over
+            // several bytes so that numeric order and byte order disagree (little-endian memcmp shortcuts)
+            const auto i = h % static_cast<std::uint64_t>(small_domain);
+            return scramble_domain ? ((i << 8) | (static_cast<std::uint64_t>(small_domain) - 1 - i)) : i;
+        }
         return h;
     }
 
@@ -364,8 +371,9 @@ struct Harness
         {
             if (STATEFUL && blk->alloc_id != alloc_id_of(cv.get_allocator()))
             {
-                report(pm(C07, C08), "owns-foreign-block",
-                       "slot" + std::to_string(s) + " block.alloc=" + std::to_string(blk->alloc_id) +
+                // swap and move construction must exchange *ownership* (C16), which includes the allocator
+                report(pm(C07, C08) | ((rc.op_kind == OP_SWAP || rc.op_kind == OP_MOVE_CONSTRUCT) ? pm(C16) : 0u),
+                       "owns-foreign-block", "slot" + std::to_string(s) + " block.alloc=" + std::to_string(blk->alloc_id) +
                            " get_allocator=" + std::to_string(alloc_id_of(cv.get_allocator())));
             }
             if (blk->bytes != mc && blk->kind != BK_TABLE)
@@ -489,7 +497,7 @@ struct Harness
                        "full fixed vector: used=" + std::to_string(de - db) + " memory_consumption=" + std::to_string(mc));
             }
         }
-        sl.snap = std::move(snap);
+        if (!c19_shared[s]) sl.snap = std::move(snap);  // shared slots keep the snapshot of the set-up phase
     }
 
     template <std::size_t... I>
